@@ -1,12 +1,12 @@
 package c14
 
 import (
-	"os"
-	"runtime/debug"
-	"strconv"
-	"runtime/pprof"
 	"encoding/json"
 	"fmt"
+	"os"
+	"runtime/debug"
+	"runtime/pprof"
+	"strconv"
 	"strings"
 	"sync/atomic"
 	"time"
@@ -217,6 +217,9 @@ func run(r *engine.Run) {
 		total := od.Total()
 		var done int64
 		complete := engine.ParallelFor(total, nw, deadline, func(wi int, idx int64) {
+			if tally.Violations() >= 8 {
+				return // enough counterexamples; the run fails anyway
+			}
 			var buf [10]int
 			t := sp.tuple(od.Digits(idx, buf[:0]))
 			for _, earlier := range sps[:si] {
